@@ -125,8 +125,15 @@ def _run_sym(job):
 
     def body(e):
         env = SymEnv(e, kind)
+        import xobjects.hybrid_class as xh
+
+        saved_default = xh.context_default
+        xh.context_default = env.context("default")  # to_dict(copy_to_cpu=True) copies into the "default context"
         try:
-            fn(env, t, v, cfg)
+            try:
+                fn(env, t, v, cfg)
+            finally:
+                xh.context_default = saved_default
         except Exception as ex:  # the library raised where the scenario expects it to work
             import traceback
 
@@ -287,6 +294,24 @@ def plan_hybrid(pid, tr, sd):
                 jobs.append((pid, "c18", label, spec, g0, dict(pls[4], history=h, nested="dict")))
                 if tr == "thorough" or (i + k) % 4 == 0:
                     jobs.append((pid, "c18", label, spec, g0, dict(placement="default", N=1, alignment=8, tight=True, history=h, nested="dressed", max_paths=200)))
+        if pid == "C19":
+            gs = [g0, dict(g0, defaults="all"), dict(g0, defaults="nested"), dict(variant=1, dim=1), dict(variant=0, dim=0), dict(variant=2, dim=3)]
+            if tr == "quick":
+                gs = gs[:3] + [gs[3 + i % 3]]
+            for k, g in enumerate(gs):
+                jobs.append((pid, "c19h", label, spec, g, dict(pls[(i + k) % 2], copy_to_cpu=(k % 2 == 0))))
+                if tr == "thorough":
+                    jobs.append((pid, "c19h", label, spec, g, dict(pls[(i + k + 1) % 2], copy_to_cpu=(k % 2 == 1))))
+            jobs.append((pid, "c19h", label, spec, g0, dict(pls[4], copy_to_cpu=True)))
+            jobs.append((pid, "c19h", label, spec, g0, dict(placement="default", N=1, alignment=8, tight=True, second="grown", copy_to_cpu=(i % 2 == 0), max_paths=200)))
+            if HY.has_href(spec):
+                jobs.append((pid, "c19h", label, spec, g0, dict(pls[i % 2], copy_to_cpu=False, refs="value")))
+        if pid == "C20":
+            for k, g in enumerate([g0, dict(variant=1, dim=1)] if tr == "quick" else [g0, dict(variant=1, dim=1), dict(variant=0, dim=0), dict(variant=2, dim=3)]):
+                jobs.append((pid, "c20h", label, spec, g, dict(pls[(i + k) % 2])))
+            jobs.append((pid, "c20h", label, spec, g0, dict(pls[4])))
+            if tr == "thorough":
+                jobs.append((pid, "c20h", label, spec, g0, dict(placement="default", N=1, alignment=8, tight=True, max_paths=300)))
     out = []
     for j in jobs:
         cfg = j[5]
@@ -301,6 +326,11 @@ def plan_hybrid(pid, tr, sd):
 def plan(pid, tr, sd):
     if pid in ("C18",):
         return plan_hybrid(pid, tr, sd)
+    hjobs = plan_hybrid(pid, tr, sd) if pid in ("C19", "C20") else []
+    return hjobs + plan_xo(pid, tr, sd)
+
+
+def plan_xo(pid, tr, sd):
     cat = tg.catalogue("quick", sd)
     if tr == "thorough":
         import random
@@ -404,6 +434,17 @@ def plan(pid, tr, sd):
                 ms.append("union")
             for k, mis in enumerate(ms):
                 jobs.append((pid, "c11", label, t, gens[0], dict(pls[(i + k) % 2], misuse=mis)))
+        elif pid == "C19":
+            # reference-free structs and one-dimensional arrays
+            if tg.has_ref(t) or not (t[0] == "struct" or (t[0] == "array" and len(t[2]) == 1)):
+                continue
+            for pl in rot(i, [pls[0], pls[1], pls[4]], 1 if tr == "quick" else 3):
+                jobs.append((pid, "c19j", label, t, gens[0], dict(pl)))
+            for g in rot(i, gens_more[:3], 1 if tr == "quick" else 3):
+                jobs.append((pid, "c19j", label, t, g, dict(pls[i % 2])))
+            if tr == "thorough" or i % 3 == 0:
+                # an arbitrary (possibly too small) free chunk: the solver forks on every allocation
+                jobs.append((pid, "c19j", label, t, gens[0], dict(placement="default", N=1, alignment=8, tight=True, second="grown", max_paths=200)))
         elif pid == "C20":
             if t[0] not in ("struct", "array"):
                 continue
@@ -432,8 +473,8 @@ def plan(pid, tr, sd):
         out = []
         for j in jobs:
             cfg = j[5]
-            heavy = tg.has_ref(j[3]) or pid in ("C09", "C10", "C08", "C20")
-            if heavy and cfg.get("N", 0) >= 1 and cfg.get("placement") != "grown":
+            heavy = tg.has_ref(j[3]) or pid in ("C09", "C10", "C08", "C20", "C19")
+            if heavy and cfg.get("N", 0) >= 1 and cfg.get("placement") != "grown" and not cfg.get("tight"):
                 j = j[:5] + (dict(cfg, roomy=1 << 14),)
             out.append(j)
         jobs = out
@@ -444,8 +485,8 @@ def plan(pid, tr, sd):
         out = []
         for j in jobs:
             cfg = j[5]
-            heavy = tg.has_ref(j[3]) or pid in ("C09", "C10", "C08", "C06", "C03", "C11", "C20")
-            if heavy and cfg.get("N", 0) >= 1 and cfg.get("placement") != "grown":
+            heavy = tg.has_ref(j[3]) or pid in ("C09", "C10", "C08", "C06", "C03", "C11", "C20", "C19")
+            if heavy and cfg.get("N", 0) >= 1 and cfg.get("placement") != "grown" and not cfg.get("tight"):
                 j = j[:5] + (dict(cfg, roomy=1 << 14),)
             elif tg.has_ref(j[3]) and cfg.get("grow_step") == "sym" and pid != "C08":
                 # one fork per allocation and growth decision: for reference-bearing types the quick tier uses
